@@ -115,8 +115,51 @@ def certify(prop, rep, c, parts=("valid",), name="cert"):
     return nobl, ndis, failing
 
 
-def report_cert_failures(prop, rep, c, failing, found_concrete):
-    """a certificate that no longer validates: the property is not shown for that parser"""
+def search_failing(c, e, judge, r, maxlen=6, cap=4000):
+    """Failing-input search for one table: every viable prefix up to maxlen (breadth first, via the Earley
+    oracle), each extended by every terminal, plus the prefixes themselves (EOF)."""
+    g, start = e["g"], e["start"]
+    frontier, words = [[]], [[]]
+    for _ in range(maxlen):
+        nxt = []
+        for p in frontier:
+            conts = g.continuations(start, p)
+            if conts is None:
+                continue
+            for t in g.terms:
+                words.append(p + [t])
+                if t in conts:
+                    nxt.append(p + [t])
+            if len(words) > cap:
+                break
+        frontier = nxt
+        if len(words) > cap or not frontier:
+            break
+    cases = [(e["tid"], lrengine.tok_items(g, e["t"], w, r), [], {}) for w in words[:cap]]
+    outs = lrengine.run_drv(c.drv, {e["tid"]: e["t"]}, [x[:3] for x in cases])
+    for case, o in zip(cases, outs):
+        d = lrengine.decode(o)
+        why = judge(case, d)
+        if why:
+            return case, d, why
+    return None
+
+
+def report_cert_failures(prop, rep, c, failing, found_concrete, judge=None, r=None):
+    """a certificate that no longer validates: the property is not shown for that parser; search that
+    parser for a concrete failing input before giving up"""
+    if failing and not found_concrete and judge is not None:
+        seen = set()
+        for e, part in failing:
+            if e["tid"] in seen or len(seen) >= 4:
+                continue
+            seen.add(e["tid"])
+            hit = search_failing(c, e, judge, r)
+            if hit:
+                case, d, why = hit
+                rep.violation(why[0], dict(case_desc(c, case), what=why[1], implementation=d,
+                                           found_by="targeted search after certificate `%s` failed" % part))
+                found_concrete = True
     if failing and not found_concrete:
         for e, part in failing[:2]:
             rep.violation("certificate:" + part, {
